@@ -116,7 +116,7 @@ func init() {
 		SweepJobs:     props.C19SweepJobs,
 		SweepScenario: props.SweepScenario,
 		Parts:         schedParts("C19", props.C19SweepJobs, 60000, 10000, 2000000, 300000),
-		Rule: "runs = scenarios in which 1-6 simulated caller goroutines decode streams of records of types with interned string fields (several tables per struct, null.String, interned fields inside slice elements and map values) from re-used ring buffers that are overwritten between calls; strings come from a per-run vocabulary built to collide (new, repeated, empty, one byte, shared prefixes, binary, invalid UTF-8). Every decode is compared with the solo decode and with the non-interned twin type's decode of the same bytes, every encoding with the twin's, every held string is re-checked against an independent copy after each scribble and at the end. Sweep part: one preemption at every yield of the first of two decodes that insert the same / different new strings. Non-trivial = at least 2 tasks in flight and at least one hand-off inside an operation; distinct = distinct interleaving ids",
+		Rule:          "runs = scenarios in which 1-6 simulated caller goroutines decode streams of records of types with interned string fields (several tables per struct, null.String, interned fields inside slice elements and map values) from re-used ring buffers that are overwritten between calls; strings come from a per-run vocabulary built to collide (new, repeated, empty, one byte, shared prefixes, binary, invalid UTF-8). Every decode is compared with the solo decode and with the non-interned twin type's decode of the same bytes, every encoding with the twin's, every held string is re-checked against an independent copy after each scribble and at the end. Sweep part: one preemption at every yield of the first of two decodes that insert the same / different new strings. Non-trivial = at least 2 tasks in flight and at least one hand-off inside an operation; distinct = distinct interleaving ids",
 		Assumptions: []string{
 			"preemption only at the instrumented sites (intern.miss, before Lock, intern.locked, intern.publish and the decode loops); the -race part covers unordered accesses to the table elsewhere",
 			"pointer identity and whether a string was actually interned are deliberately not checked: losing an insert to a concurrent one is transparent",
@@ -128,7 +128,7 @@ func init() {
 		ID: "C11", Level: "exploration",
 		Gen:   props.GenC11,
 		Parts: schedParts("C11", nil, 60000, 8000, 2000000, 200000),
-		Rule: "runs = scenarios in the message-pump shape: 1-3 simulated caller goroutines copy records into re-used ring buffers (old bytes left beyond the record), decode them, keep the decoded values together with independent expected copies, append Marshal output to an output log, and - as injected faults at scheduler-chosen instants - overwrite the ring buffers (00 / FF / increment / random), overwrite the byte slices of a marshalled value and overwrite returned bytes. After every such event all live decoded values are re-compared; input bytes, the prefix of the output log (in its original backing array) and the marshalled value are compared with snapshots. Non-trivial runs / distinct as for C07",
+		Rule:  "runs = scenarios in the message-pump shape: 1-3 simulated caller goroutines copy records into re-used ring buffers (old bytes left beyond the record), decode them, keep the decoded values together with independent expected copies, append Marshal output to an output log, and - as injected faults at scheduler-chosen instants - overwrite the ring buffers (00 / FF / increment / random), overwrite the byte slices of a marshalled value and overwrite returned bytes. After every such event all live decoded values are re-compared; input bytes, the prefix of the output log (in its original backing array) and the marshalled value are compared with snapshots. Non-trivial runs / distinct as for C07",
 		Assumptions: []string{
 			"aliasing is observed through content: a decoded string that aliases the input changes when the buffer is overwritten with a different pattern; patterns that happen to write identical bytes cannot expose it (four different patterns are used)",
 			"expected copies come from the solo decode, deep-copied by the harness into fresh memory",
@@ -139,7 +139,7 @@ func init() {
 		ID: "C10", Level: "exploration",
 		Gen:   props.GenC10,
 		Parts: schedParts("C10", nil, 60000, 6000, 2000000, 150000),
-		Rule: "runs = histories on one long-lived instance: 1-3 simulated caller goroutines, 4-8 operations each: decode into a fresh target, decode into a re-used target (previously holding longer / shorter / differently populated values, so capacity is re-used with stale elements beyond len), decode a torn record (aborted operation), Marshal; sync.Pool policy of the map key scratch owned by the simulator (recycled-dirty 70% / fresh / dropped). Oracles: fresh decodes equal the solo decode on a brand-new instance (history independence); a re-used target equals an exactly-sized deep copy of its prior value after decoding the same bytes (physical twin); slices present in the data hold exactly the encoded elements; on the merge family the executable merge rules of the statement. Non-trivial / distinct as for C07, plus single-task histories count as non-trivial when a target or pooled scratch was re-used",
+		Rule:  "runs = histories on one long-lived instance: 1-3 simulated caller goroutines, 4-8 operations each: decode into a fresh target, decode into a re-used target (previously holding longer / shorter / differently populated values, so capacity is re-used with stale elements beyond len), decode a torn record (aborted operation), Marshal; sync.Pool policy of the map key scratch owned by the simulator (recycled-dirty 70% / fresh / dropped). Oracles: fresh decodes equal the solo decode on a brand-new instance (history independence); a re-used target equals an exactly-sized deep copy of its prior value after decoding the same bytes (physical twin); slices present in the data hold exactly the encoded elements; on the merge family the executable merge rules of the statement. Non-trivial / distinct as for C07, plus single-task histories count as non-trivial when a target or pooled scratch was re-used",
 		Assumptions: []string{
 			"where the statement is silent (struct-valued map entries under an existing key) no expectation is encoded: the merge model is only applied to types whose map values are scalars, strings or pointers to scalars, and only when the fresh round trip of the value is the identity",
 			"a target that received a failed decode is dropped from value checks; the instance, pool and tables stay checked",
